@@ -9,6 +9,7 @@ import GocoinV.Proofs.C16Inv
 import GocoinV.Proofs.C16Snappy
 import GocoinV.Proofs.C16Walk
 import GocoinV.Proofs.C16Main
+import GocoinV.Proofs.C16Live
 namespace GocoinV.Props.C16
 open GocoinV GocoinV.BlockDB
 
@@ -203,6 +204,17 @@ theorem data_file_invariant (env : Env)
     (s : State) (sp : Spec) (h : Ref env s sp) (op : Op) (hno : op.isReopen = false) (hsz : op.sizeOK) :
     Ref env (step env s op).1 (specStep sp op) :=
   (step_ref env ⟨hrt, hne⟩ s sp h op hno hsz).1
+
+/-- Nothing stays queued: after ANY history (restarts, every option combination, any codec) the flush that Idle and
+    Close perform — `writeAll`, also run by BlockAdd at its thresholds — empties the write queue and leaves every
+    record of the in-memory index written to disk (`ipos` set): a block that was marked invalid while queued is dropped,
+    a stale entry of a re-added hash is discarded, every other queued block is written exactly once. -/
+theorem flush_writes_everything (env : Env) (ops : List Op) :
+    let s := (run env init ops).1
+    (flush env s).queue = [] ∧ ∀ k r, AL.get (flush env s).index k = some r → r.ipos.isSome = true := by
+  intro s
+  have hl := run_live env ops init init_live
+  exact ⟨(writeAll_live env s.queue.length s hl (Nat.le_refl _)).2, (flush_all_written env s hl).2⟩
 
 /-
   OPEN: store_refines_map, full strength : the statement of `store_refines_map_partial` for histories WITH close + reopen
